@@ -1462,7 +1462,33 @@ output: struct DISK_POINTER *block_offset  Block/offset for LID.
 output: struct NODE_HEADER *node_header    The node header for LID.
 output: int *error_return       Error return.
 ***********************************************************************/
+static void ADFI_chase_link_1( const double ID, double *LID,
+        unsigned int *file_index, struct DISK_POINTER *block_offset,
+        struct NODE_HEADER *node_header, int *error_return ) ;
+
 void    ADFI_chase_link(
+        const double ID,
+        double *LID,
+        unsigned int *file_index,
+        struct DISK_POINTER *block_offset,
+        struct NODE_HEADER *node_header,
+        int *error_return )
+{
+/* ADFI_chase_link and ADF_Get_Node_ID call each other for the links met
+   inside a stored path: bound that recursion like the chain itself */
+static int nesting = 0 ;
+
+if( nesting >= ADF_MAXIMUM_LINK_DEPTH ) {
+   *error_return = LINKS_TOO_DEEP ;
+   return ;
+} /* end if */
+nesting++ ;
+ADFI_chase_link_1( ID, LID, file_index, block_offset, node_header,
+        error_return ) ;
+nesting-- ;
+}
+
+static void ADFI_chase_link_1(
         const double ID,
         double *LID,
         unsigned int *file_index,
